@@ -508,6 +508,51 @@ theorem dateToStringPinned_defects :
     (dateToString .date32 2147483647).isErr = true := by
   decide
 
+/-! ## calendar model (external; lowest priority) -/
+
+/-- shifting the year by 400·k shifts the day count by 146097·k -/
+theorem daysFromCivil_shift (y m d k : Int) : daysFromCivil (y + 400 * k) m d = daysFromCivil y m d + 146097 * k := by
+  unfold daysFromCivil
+  simp only
+  split <;> omega
+
+theorem civilFromDays_shift (z k : Int) :
+    civilFromDays (z + 146097 * k) = ((civilFromDays z).1 + 400 * k, (civilFromDays z).2.1, (civilFromDays z).2.2) := by
+  unfold civilFromDays
+  simp only
+  have e1 : (z + 146097 * k + 719468) / 146097 = (z + 719468) / 146097 + k := by omega
+  have e2 : z + 146097 * k + 719468 - ((z + 719468) / 146097 + k) * 146097 = z + 719468 - (z + 719468) / 146097 * 146097 := by omega
+  rw [e1, e2]
+  generalize z + 719468 - (z + 719468) / 146097 * 146097 = doe
+  simp only [Prod.mk.injEq, and_true]
+  split <;> omega
+
+/-- `daysFromCivil` applied to a triple -/
+def daysOfCivil (c : Int × Int × Int) : Int := daysFromCivil c.1 c.2.1 c.2.2
+
+/-- **days_civil_roundtrip_partial** — reduction of `daysFromCivil ∘ civilFromDays = id` (all of ℤ) to the one
+400-year era that starts at 0000-03-01 (146 097 consecutive day numbers), by the two periodicity lemmas above.
+MISSING: the finite era table itself (`hera`); it is a `decide +kernel` obligation over 146 097 days which has to
+be chunked over Nat-valued checkers to build in < 60 s per file (Int arithmetic costs ≈ 6 ms / day in the kernel);
+until then the agreement of `civilFromDays` / `daysFromCivil` with each other and with chrono / jiff is covered by
+the `temporal` correspondence suite only. -/
+theorem days_civil_roundtrip_partial
+    (hera : ∀ z0 : Int, -719468 ≤ z0 → z0 < -719468 + 146097 → daysOfCivil (civilFromDays z0) = z0) (z : Int) :
+    daysOfCivil (civilFromDays z) = z := by
+  have hz : z = (z - 146097 * ((z + 719468) / 146097)) + 146097 * ((z + 719468) / 146097) := by omega
+  have hb : -719468 ≤ z - 146097 * ((z + 719468) / 146097) ∧
+      z - 146097 * ((z + 719468) / 146097) < -719468 + 146097 := by omega
+  generalize (z + 719468) / 146097 = k at hz hb
+  have h0 := hera (z - 146097 * k) hb.1 hb.2
+  rw [hz, civilFromDays_shift]
+  unfold daysOfCivil at h0 ⊢
+  simp only
+  rw [daysFromCivil_shift, h0]
+
+/-- the era hypothesis holds on the first 600 days of the era (non-vacuity of the reduction; kernel evaluation) -/
+theorem era_window_sample : ∀ i : Nat, i < 600 →
+    daysOfCivil (civilFromDays ((i : Int) - 719468)) = (i : Int) - 719468 := by decide +kernel
+
 /-! ## UTC detection -/
 
 set_option maxRecDepth 100000 in
